@@ -23,12 +23,11 @@ class Unconstructible(Exception):
     pass
 
 
-class Factory:
+class SchemaTables:
+    """schema-only part (no library import): valid values, shortest / short words of the content models"""
+
     def __init__(self, J=None):
         self.J = J or json.load(open(os.path.join(VERIF, 'spec', 'schema.json')))
-        with contextlib.redirect_stdout(io.StringIO()):
-            import musicxml.xmlelement.xmlelement as X
-        self.X = X
         self._short = {}
         self._val = {}
         self._plan = {}
@@ -110,6 +109,73 @@ class Factory:
                     dq.append((q, w + [lab[q - 1]]))
         raise Unconstructible(t)
 
+    def words(self, t, n):
+        """accepted words of CM[t] up to length n, shortest first"""
+        a = self.J['cm'][t]
+        lab = a['lab']
+        fol = {int(k): v for k, v in a['follow'].items()}
+        out = [[]] if a['nullable'] else []
+        level = {}
+        for p in a['first']:
+            level.setdefault((lab[p - 1],), set()).add(p)
+        for _ in range(n):
+            nxt = {}
+            for w, S in sorted(level.items()):
+                if S & set(a['last']):
+                    out.append(list(w))
+                for p in S:
+                    for q in fol[p]:
+                        nxt.setdefault(w + (lab[q - 1],), set()).add(q)
+            level = nxt
+        return out
+
+
+    def word_through(self, t, sym):
+        """a shortest accepted word of CM[t] that contains sym"""
+        from collections import deque
+        a = self.J['cm'][t]
+        lab = a['lab']
+        fol = {int(k): v for k, v in a['follow'].items()}
+        best = None
+        # shortest path to each position, and from each position to acceptance
+        to = {}
+        dq = deque()
+        for p in sorted(a['first']):
+            to[p] = [p]
+            dq.append(p)
+        while dq:
+            p = dq.popleft()
+            for q2 in fol[p]:
+                if q2 not in to:
+                    to[q2] = to[p] + [q2]
+                    dq.append(q2)
+        frm = {p: [] for p in a['last']}
+        dq = deque(a['last'])
+        pred = {}
+        for p, qs in fol.items():
+            for q2 in qs:
+                pred.setdefault(q2, []).append(p)
+        while dq:
+            q2 = dq.popleft()
+            for p in pred.get(q2, []):
+                if p not in frm:
+                    frm[p] = [q2] + frm[q2]
+                    dq.append(p)
+        for p in range(1, len(lab) + 1):
+            if lab[p - 1] == sym and p in to and p in frm:
+                w = [lab[x - 1] for x in to[p] + frm[p]]
+                if best is None or len(w) < len(best):
+                    best = w
+        return best
+
+
+class Factory(SchemaTables):
+    def __init__(self, J=None):
+        SchemaTables.__init__(self, J)
+        with contextlib.redirect_stdout(io.StringIO()):
+            import musicxml.xmlelement.xmlelement as X
+        self.X = X
+
     # ---- elements -------------------------------------------------------------------
     def plan(self, name, lenient=False):
         """(class, value, kwargs, child names) for a minimal valid instance.  lenient: leave out required
@@ -168,26 +234,6 @@ class Factory:
             return True
         except Exception:  # noqa
             return False
-
-    def words(self, t, n):
-        """accepted words of CM[t] up to length n, shortest first"""
-        a = self.J['cm'][t]
-        lab = a['lab']
-        fol = {int(k): v for k, v in a['follow'].items()}
-        out = [[]] if a['nullable'] else []
-        level = {}
-        for p in a['first']:
-            level.setdefault((lab[p - 1],), set()).add(p)
-        for _ in range(n):
-            nxt = {}
-            for w, S in sorted(level.items()):
-                if S & set(a['last']):
-                    out.append(list(w))
-                for p in S:
-                    for q in fol[p]:
-                        nxt.setdefault(w + (lab[q - 1],), set()).add(q)
-            level = nxt
-        return out
 
     def elem_for_type(self, t):
         """a representative element name bound to complex type t (first in name order that can be built)"""
